@@ -276,6 +276,7 @@ theorem book_step (h : Trace) (r : Rec) (ih : Book h) : Book (h ++ [r]) := by
         exact keep _ rfl (fun _ => ⟨rfl, rfl, rfl⟩) rfl (fun _ => ⟨rfl, rfl, rfl⟩)
     | roundtrip same => exact keep _ rfl (fun _ => ⟨rfl, rfl, rfl⟩) rfl (fun _ => ⟨rfl, rfl, rfl⟩)
     | codec ok => exact keep _ rfl (fun _ => ⟨rfl, rfl, rfl⟩) rfl (fun _ => ⟨rfl, rfl, rfl⟩)
+    | readonly t => exact keep _ rfl (fun _ => ⟨rfl, rfl, rfl⟩) rfl (fun _ => ⟨rfl, rfl, rfl⟩)
 
 /-- **Bookkeeping**: the monitor's page size, registries, scripts and reference pagers are what the
 history says. -/
@@ -853,6 +854,7 @@ theorem monStep_fired {s : MState} {r : Rec} {cl : Clause} (h : (monStep s r).2 
     cases ok with
     | true => cases h
     | false => simp only [Bool.false_eq_true, if_false, Option.some.injEq] at h; subst h; exact .codec
+  | readonly t => cases h
 
 /-- A firing step on a list answer of the SDK server, with the monitor's reason. -/
 theorem fires_monList {tr : Trace} {j : Nat} {cl : Clause} (hf : FiresAt tr j cl)
@@ -1118,6 +1120,7 @@ theorem tr_step (s : MState) (kind : Kind) (r : Rec) (hn : neutral kind r = true
     cases (s.get k0).script <;> simp [map_noop]
   | roundtrip same => simp [monStep, fetchOfS, mutatesB, map_noop]
   | codec ok => simp [monStep, fetchOfS, mutatesB, map_noop]
+  | readonly t => simp [monStep, fetchOfS, mutatesB, map_noop]
 
 theorem tr_step_nonneutral (s : MState) (kind : Kind) (r : Rec) (hn : neutral kind r = false) :
     (r = .tbegin kind ∧ ((monStep s r).1.get kind).tr = some {}) ∨ ((monStep s r).1.get kind).tr = none := by
